@@ -422,6 +422,10 @@ fn main() {
                     cases.push(gen_rec_query_family(&mut rng));
                     continue;
                 }
+                if rng.chance(1, 6) {
+                    cases.push(gen_union_proj_family(&mut rng));
+                    continue;
+                }
                 let mut gcfg = GenCfg::default();
                 gcfg.allow_agg = rng.chance(1, 3);
                 if gcfg.allow_agg {
@@ -443,7 +447,7 @@ fn main() {
                 }
                 let text = p.iql();
                 let cfg_bits = if rng.chance(1, 2) { 0 } else { 31 };
-                let workers = *rng.pick(&[1usize, 1, 2, 3, 4]);
+                let workers = if tags.contains(&"union-of-projections") { *rng.pick(&[2usize, 3, 4, 8]) } else { *rng.pick(&[1usize, 1, 2, 3, 4]) };
                 sink.tally(&format!("workers:{}", workers));
                 let res = run_engine(&text, &edb, cfg_bits, workers, 0);
                 let coq = format!("C07Case {}%nat {} {} {}", fuel, p.coq(), edb_coq(&edb), coq_res(&res));
